@@ -329,6 +329,72 @@ def static_case(out, model, cls, members, style, stats):
         stats['samples'].append(case)
 
 
+
+def hierarchy_source(classes, style):
+    """several static classes in one module; classes = [(name, base or None, members)]"""
+    lines = ['from pyecore.ecore import *']
+    for cls, base, members in classes:
+        if style == 'meta':
+            lines.append(f'class {cls}({base or "EObject"}{"" if base else ", metaclass=MetaEClass"}):')
+        else:
+            lines += ['@EMetaclass', f'class {cls}({base or "object"}):']
+        if not members:
+            lines.append('    pass')
+        for n, kind, args, nd in members:
+            k = len(args) - nd
+            ar = ', '.join(a if i < k else f'{a}=None' for i, a in enumerate(args))
+            lines.append(f'    def {n}({ar}):')
+            lines.append(f"        return '{cls}.{n}'")
+    return '\n'.join(lines) + '\n'
+
+
+def static_hierarchy_cases(out, model, stats, rng, n):
+    """static classes that inherit from each other and OVERRIDE methods with another parameter list: every class
+    reflects the methods of its own body (overriding ones included, with their own parameters), and
+    findEOperation on the subclass finds the subclass's declaration."""
+    names = ['run', 'go', 'opt', 'step', 'class_']
+    for it in range(n):
+        style = 'meta' if it % 2 == 0 else 'decorator'
+        depth = rng.choice([2, 2, 3])
+        classes = []
+        for d in range(depth):
+            members = []
+            for nm in rng.sample(names, rng.randrange(1, 4)):
+                req, opt = rng.randrange(0, 3), rng.randrange(0, 3)
+                members.append((nm, 'method', ['self'] + REQ_NAMES[:req] + OPT_NAMES[:opt], opt))
+            classes.append((f'K{d}', f'K{d - 1}' if d else None, members))
+        case = {'section': 'C-hierarchy', 'style': style, 'classes': [[c, b, [list(m) for m in ms]] for c, b, ms in classes]}
+        src = hierarchy_source(classes, style)
+        try:
+            m = exec_static(src)
+        except Exception as e:  # noqa: BLE001
+            out.fail({'property': 'C20', 'clause': 'static-hierarchy-raised', 'culprit': 'promote', 'qualifiers': []},
+                     f'defining {[c[0] for c in classes]} raised {type(e).__name__}: {e}', case)
+            continue
+        stats['static_hierarchies'] = stats.get('static_hierarchies', 0) + 1
+        for cls, base, members in classes:
+            got = reflected(getattr(m, cls))
+            want = expected_reflection(members)
+            mod = model_reflection(model, cls, members)
+            if mod != got:
+                out.diff(f'promote model vs impl for class {cls} of a hierarchy ({style}): model {mod} impl {got}', case)
+            if got != want:
+                out.fail({'property': 'C20', 'clause': 'static-reflection-in-hierarchy', 'culprit': 'promote', 'qualifiers': []},
+                         f'static class {cls}({base}): eOperations {got} but its body declares {want}', case)
+                break
+            bad = None
+            for n_, _, args, nd in members:
+                o = getattr(m, cls).eClass.findEOperation(n_)
+                k = len(args) - nd
+                exp = [[a, 1 if i < k else 0] for i, a in enumerate(args)]
+                if o is None or [[p.name, 1 if p.required else 0] for p in o.eParameters] != exp:
+                    bad = (n_, None if o is None else [[p.name, 1 if p.required else 0] for p in o.eParameters], exp)
+                    break
+            if bad:
+                out.fail({'property': 'C20', 'clause': 'find-operation-in-hierarchy', 'culprit': 'promote', 'qualifiers': []},
+                         f'{cls}.eClass.findEOperation({bad[0]!r}) has parameters {bad[1]}, the body of {cls} declares {bad[2]}', case)
+                break
+
 def section_c(out, model, intern, stats, thorough):
     combos = [[m] for m in POOL] + [list(p) for p in itertools.permutations(POOL, 2)]
     if thorough:
@@ -586,6 +652,7 @@ def run(ctx, out):
     section_a(out, model, stats)
     section_b(out, model, intern, stats)
     section_c(out, model, intern, stats, ctx.tier == 'thorough')
+    static_hierarchy_cases(out, model, stats, common.rng_for(ctx.seed, 'C20:hierarchy'), 60 if ctx.tier != 'thorough' else 1500)
     section_d(out, model, intern, stats, ctx)
     model.close()
     if mio.flag_installed():
@@ -601,7 +668,7 @@ def run(ctx, out):
         'traces_validated_against_impl': n,
         'keyword_table_entries_checked': stats['kw'],
         'declarations': stats['decls'], 'declaration_outcomes_by_code': stats['decl_outcomes'],
-        'static_bodies': stats['static_bodies'], 'roundtrips': stats['roundtrips'],
+        'static_bodies': stats['static_bodies'], 'static_hierarchies': stats.get('static_hierarchies', 0), 'roundtrips': stats['roundtrips'],
         'histories': stats['histories'], 'history_ops': stats['ops'],
         'history_ops_by_kind': stats['op_kinds'], 'history_outcomes_by_code': stats['outcomes'],
         'scenarios': stats['scenarios'], 'random_histories': stats['random_histories'],
